@@ -34,7 +34,7 @@ ASSUMPTIONS = c01.ASSUMPTIONS[:3] + [
 ]
 BOUNDS = {
     "quick": "every manager of <=3 acyclic expression definitions over {a,b,c,n.x,l0} in every registration order (sampled 1 in 3 for 3 definitions); assignment to every location; "
-             "fault at every write position; <=2 faulty updates in a row (second with a fresh value or the same value), then the fault-free repeat",
+             "fault at every write position; <=2 faulty updates in a row (second with a fresh value or the same value), then the fault-free repeat; linear knobs with 1..4 targets (plain or derived source, optional reader of the first target), every pair of failing write positions",
     "thorough": "all managers of <=3 definitions, <=3 faulty updates in a row, both builds",
 }
 OUTSIDE = "faults inside index maintenance (register/unregister) - set_value touches the indices only before the first write; FunctionTask actions raising (same run_tasks loop)"
@@ -155,7 +155,7 @@ def run_knob(ex, case):
     m, r, d = st.m, st.r, st.d
     L = "a"
     targets = case["targets"]                     # e.g. ["b"] or ["b", "n.x"]
-    ws = [3, -2][:len(targets)]                   # concrete weights keep the obligations linear
+    ws = [3, -2, 5, 7][:len(targets)]             # concrete weights keep the obligations linear
     if case.get("derived_source"):
         st.apply(("expr", "c", ("add", ("loc", "a"), ("const", 1))))
         S = "c"
@@ -393,9 +393,10 @@ def cases(tier):
                         out.append({"build": b, "defs": defs, "loc": L, "maxfaults": 2, "assign_expr": True})
                     if k == 1 or (k == 2 and len(out) % 3 == 0):
                         out.append({"build": b, "defs": defs, "loc": L, "maxfaults": 2, "fault": "interrupt"})
-        for targets in (["b"], ["b", "n.x"], ["l0", "l1"]):
+        for targets in (["b"], ["b", "n.x"], ["l0", "l1"], ["b", "n.x", "l0"], ["b", "n.x", "l0", "l1"]):
             for derived in (False, True):
                 for reader in (None, "n.y"):
-                    out.append({"mode": "knob", "build": b, "targets": targets, "derived_source": derived, "reader": reader, "maxfaults": 2})
+                    out.append({"mode": "knob", "build": b, "targets": targets, "derived_source": derived, "reader": reader,
+                                "maxfaults": 2 if tier == "quick" or len(targets) > 3 else 3})
         out.append({"mode": "knob", "build": b, "targets": ["b"], "derived_source": True, "reader": "n.y", "maxfaults": 2, "fault": "interrupt"})
     return out
